@@ -28,6 +28,7 @@ EXPLANATION = (
     " (R10) a pandas-engine coerce method uses Series-only accessors (.dt, .apply, .cat) on its container only under a hasattr / isinstance guard, because Index components hand a pandas Index to coerce. " 
     " R2 also requires the element predicate to catch every exception (broad handler) and the failure-case report to keep nulls (reshape_failure_cases(..., ignore_na=False)). " 
     "NOT decided: everything value-level - exactness, idempotence, agreement of coerce/coerce_value/check."
+    ' (R11) in the coercion functions of the pandas backends no dtype-dropping accessor (.values, .to_numpy(), .tolist()) is applied outside the pyspark.pandas guard (zero-count rule with a positive self-test).'
 )
 LEVEL_RULE = "one obligation per try_coerce implementation / helper / schema-level site / coerce method / operator"
 FLOORS = {"R1": 4, "R2": 4, "R3": 4, "R4": 20, "R5": 1, "R6": 2, "R7": 2, "R8": 1, "R9": 1, "R10": 2}
